@@ -183,3 +183,6 @@ class ConcatenatedObject(Concatenated, ObjectBase):
 
             self.concatenator.remove_entity(child)
             self._children.remove(child)
+
+            if child is self._visual_parameters:
+                self._visual_parameters = None
